@@ -5,9 +5,12 @@
 //   (i)  entry-wise: |inv_glm[c][r] - cof/det| <= 8 u [K_cof S_cof + |cof| (K_det S_det/|det| + 2)] / |det|   (documented formula cof/det,
 //        K = number of rounded operations on the path of one Leibniz term); determinant: 8 K_det u S_det; adjugate: 8 K_cof u S_cof.
 //        A wrong sign or index moves an entry by ~2|cof|/|det|, orders of magnitude above the bound, and cancellation widens it automatically.
-//   (ii) identity residual max|inverse(M)*M - I|, max|M*inverse(M) - I| (GLM's own operator*): violation above 4 kappa^2 eps;
-//        above 64 kappa eps it contradicts "proportional to the condition number" (DESIGN.md section 4, finding #17) and is reported
-//        under the narrow key inverse/residual-above-64-kappa-eps.
+//   (ii) identity residual max|inverse(M)*M - I|, max|M*inverse(M) - I| (GLM's own operator*): violation above the forward bound that the entry
+//        bounds of (i) imply for the rounded product. DESIGN.md planned 4 kappa^2 eps as the violation threshold; the search showed that the cofactor
+//        scheme exceeds it for 4x4 (worst case ~ kappa^3 eps when sigma_2..sigma_4 << sigma_1), so both regimes are findings, not thresholds:
+//        a residual above 64 kappa eps contradicts "proportional to the condition number" (DESIGN.md section 4, finding #17) and is reported under
+//        the narrow keys inverse/residual-above-64-kappa-eps and inverse/residual-above-4-kappa2-eps (still inside the forward bound of cof/det).
+//   inverseTranspose that equals inverse(M) entry for entry (no transposition) gets its own key, so that any other defect keeps the entry keys.
 // Part 2 (C10_variants.cpp): affineInverse, operator/, qr/rq_decompose, matrix_query, diagonal*/flip*.
 #include "fp.hpp"
 #include "ref/refmat.hpp"
@@ -203,12 +206,12 @@ template <int N, class T> static void core(pbt::Ctx& c, bool exact_only) {
 	           "integer matrices with |entries| <= B, n! B^n <= 2^p (every intermediate of a cofactor expansion is an exactly representable integer): unimodular products of signed permutations and integer shears, " \
 	           "general small-integer matrices (singular ones included for determinant/adjugate), integer triangular, affine integer; determinant, adjugate exact for all, inverse, inverseTranspose and both " \
 	           "identity products exact for det = +-1; non-trivial = neither diagonal nor symmetric")
-REG_CORE(2, float, float, 300000, 8000000);
-REG_CORE(3, float, float, 300000, 8000000);
-REG_CORE(4, float, float, 300000, 8000000);
-REG_CORE(2, double, double, 300000, 8000000);
-REG_CORE(3, double, double, 300000, 8000000);
-REG_CORE(4, double, double, 300000, 8000000);
+REG_CORE(2, float, float, 300000, 5000000);
+REG_CORE(3, float, float, 300000, 5000000);
+REG_CORE(4, float, float, 300000, 5000000);
+REG_CORE(2, double, double, 300000, 5000000);
+REG_CORE(3, double, double, 300000, 5000000);
+REG_CORE(4, double, double, 300000, 5000000);
 
 // =============================================================================================
 // det(A*B) = det(A) det(B), evaluated on GLM's results: P = fl(A*B) (GLM operator*), |E| = |P - AB| <= n u |A||B| entry-wise, so
@@ -254,11 +257,11 @@ template <int N, class T> static void detprod(pbt::Ctx& c) {
 	PBT_RANDOM("det_product/mat" #N "/" #tname, detprod_##N##_##tname, q, t, \
 	           "pairs A,B of in-range matrices of every generator class (one quarter small-integer/unimodular pairs where everything is exact); determinant(A*B) against determinant(A)*determinant(B) within the " \
 	           "first-order perturbation bound of the rounded product plus the Leibniz bounds of the three determinants; non-trivial = neither factor diagonal and the bound <= 1e-2 |det A det B|")
-REG_DP(2, float, float, 150000, 3000000);
-REG_DP(3, float, float, 150000, 3000000);
-REG_DP(4, float, float, 150000, 3000000);
-REG_DP(2, double, double, 150000, 3000000);
-REG_DP(3, double, double, 150000, 3000000);
-REG_DP(4, double, double, 150000, 3000000);
+REG_DP(2, float, float, 150000, 2000000);
+REG_DP(3, float, float, 150000, 2000000);
+REG_DP(4, float, float, 150000, 2000000);
+REG_DP(2, double, double, 150000, 2000000);
+REG_DP(3, double, double, 150000, 2000000);
+REG_DP(4, double, double, 150000, 2000000);
 
 int main(int argc, char** argv) { return pbt::pbt_main(argc, argv, "C10"); }
